@@ -84,13 +84,13 @@ hdr = ["Each of the 20 properties was given to a fresh sub-agent that saw only t
        "lookups): 19 own, 1 only by another (r5-C01-2), 0 missed.",
        "",
        "**Sixth round** (rows `r6-…`, the ten properties of round 4 again, same guidance as round 5): first",
-       "pass 14 own, 5 more only by another property's check, 1 by none (a deferred wipe of the decrypted",
+       "pass 15 own, 4 more only by another property's check, 1 by none (a deferred wipe of the decrypted",
        "buffer). After strengthening (C16.X8; C02.L10 = C12.P8 = C03.S4; C12.P9 = C19.P1; C10 now",
        "requires the exported lookups confirmed on the pinned tree to stay extractable — a rewritten",
        "lookup had silently dropped out of the comparison): 19 own, 1 only by another (r6-C12-1), 0 missed.",
        "",
        "Over the six rounds the first-pass rate of the own property's check on unseen changes was 24/40,",
-       "28/40, 15/20, 13/20, 13/20, 14/20 (by some check: 27/40, 33/40, 18/20, 17/20, 18/20, 19/20): the",
+       "28/40, 15/20, 13/20, 13/20, 15/20 (by some check: 27/40, 33/40, 18/20, 17/20, 18/20, 19/20): the",
        "sub-agents were steered to something new each round, and each round still found clauses no rule",
        "decided. What the numbers support is that a realistic breaking change is very likely to be",
        "reported by *some* check (≈ 90 % on unseen changes in the last four rounds) and that the misses",
